@@ -9,6 +9,7 @@ import (
 	"path/filepath"
 	"sort"
 	"strings"
+	"syscall"
 	"time"
 
 	"github.com/hashicorp/go-slug/sourceaddrs"
@@ -640,7 +641,18 @@ func runSynthetic(sc *bw.Scenario, log *simkit.Log, out *simkit.Outcome) {
 			os.MkdirAll(dir+"/"+d+"/m1", 0o755)
 			os.WriteFile(dir+"/"+d+"/main.tf", []byte(d), 0o644)
 		}
-		os.WriteFile(dir+"/terraform-sources.json", []byte(*sc.Manifest), 0o644)
+		switch *sc.Manifest {
+		case "@FIFO@":
+			// a named pipe where the manifest should be: opening it must not be waited for
+			syscall.Mkfifo(dir+"/terraform-sources.json", 0o644)
+		case "@LINK-FIFO@":
+			syscall.Mkfifo(dir+"/m.fifo", 0o644)
+			os.Symlink("m.fifo", dir+"/terraform-sources.json")
+		case "@DIR@":
+			os.Mkdir(dir+"/terraform-sources.json", 0o755)
+		default:
+			os.WriteFile(dir+"/terraform-sources.json", []byte(*sc.Manifest), 0o644)
+		}
 		log.Add(0, "op-start", "OpenDir synthetic")
 		var b *sourcebundle.Bundle
 		var err error
